@@ -21,8 +21,10 @@ ASSUMPTIONS = [
 
 
 def pos_pool(rng, n, k):
-    base = [0, 1, n - 1, n, n + 1, k - 1, k, k + 1, 2 * k - 1, 2 * k, 2 * k + 1, 3 * k]
-    p = rng.choice(base + [rng.randrange(0, n + 2)])
+    base = [0, 1, n - 1, n, k - 1, k, k + 1, 2 * k - 1, 2 * k, 2 * k + 1, 3 * k]
+    p = rng.choice(base + [rng.randrange(0, n + 1)])
+    if p > n and rng.random() < 0.9:        # beyond the end only now and then: a refused SetPosition ends what the reference requires
+        p = rng.randrange(0, n + 1)
     return max(0, p)
 
 
@@ -123,29 +125,29 @@ def run(ctx, vlib):
             return impls.get(int(t[1]), impls[256])
         return impls[256]
 
-    groups = {256: S.load_corpus("C10") + gen_is(rng, 3000 if quick else 30000)}
+    allc = S.load_corpus("C10") + gen_is(rng, 3000 if quick else 30000)
     for k in ks:
-        groups.setdefault(k, [])
-        groups[k] += boundary_bsr(rng, k)
-        groups[k] += gen_bsr(rng, k, (1500 if quick else 15000) if k == 256 else (2500 if quick else 25000))
+        allc += boundary_bsr(rng, k)
+        allc += gen_bsr(rng, k, (1500 if quick else 15000) if k == 256 else (2500 if quick else 25000))
+
+    def case_k(c):
+        t = c.split(" ")
+        return int(t[1]) if t[0] in ("bsr", "blob") else 256
     cases, oi, om = [], [], []
     for k in ks:
-        mine = [c for c in groups[k] if c.split(" ")[0] not in ("bsr", "blob") or int(c.split(" ")[1]) == k]
-        other = [c for c in groups[k] if c not in mine]          # corpus lines for another K
-        for c in other:
-            kk = int(c.split(" ")[1])
-            if kk in impls:
-                groups[kk].append(c)
+        mine = [c for c in allc if case_k(c) == k]
         cases += mine
         oi += vlib.run_driver(impls[k], mine)
         om += vlib.run_driver(model, mine)
+    skipped = [c for c in allc if case_k(c) not in impls]      # corpus lines for a K that needs the hook
 
     # the property predicate itself, evaluated on what the implementation answered: every trace on a
     # seekable stream must be accepted by the in-memory reader
     jl, jidx = [], []
     for i, (c, a) in enumerate(zip(cases, oi)):
         t = c.split(" ")
-        if t[0] == "bsr" and not t[2].startswith("n") and t[4] != "-" and " " in a or (t[0] == "bsr" and not t[2].startswith("n") and a[:2] in ("e:", "f:", "g:", "s:", "p:", "b:", "k:", "c:", "n")):
+        if t[0] == "bsr" and not t[2].startswith("n") and t[4] != "-" and \
+                not a.startswith(("CRASH", "SANITIZER", "TERMINATE", "HANG", "EXC", "UNSUPPORTED")):
             jl.append("bsrjudge %s %s %s %s" % (t[1], t[3], t[4], a)); jidx.append(i)
     jo = vlib.run_driver(model, jl)
     rejected = dict((jidx[j], True) for j, o in enumerate(jo) if o != "ACCEPT")
@@ -186,7 +188,7 @@ def run(ctx, vlib):
                 failing=failing, diffs=diffs, known_lines=known,
                 rule="random sequences (<= 40) of the nine CBinaryStreamReader operations over data of length 0..3K (lengths and positions at K-1,K,K+1,2K-1,..,3K), boundary scripts for every squeeze size / window edge, the callers' ReadByChunks loop, x stream kinds {istringstream, short-read seekable streambuf 1..k bytes per underflow, non-seekable streambuf} x K in %s; every implementation trace on a seekable stream is additionally checked by the extracted reference reader; `is` ops validate the modelled istream; non-trivial = distinct case that refills the window or seeks" % ks,
                 exhaustive=False, broken="correspondence stream model (M-BSR / M-IS) vs binary_stream_reader.cpp (drv_stream)",
-                extra=dict(chunk_sizes=ks, hook=S.hook_present(vlib), reference_checked=len(jl), reference_rejected=len(rejected)))
+                extra=dict(chunk_sizes=ks, hook=S.hook_present(vlib), reference_checked=len(jl), reference_rejected=len(rejected), corpus_lines_skipped_for_missing_hook=len(skipped)))
 
 
 def replay(rp, vlib):
